@@ -40,12 +40,15 @@ void *M(memset)(void *d, int c, size_t n) {
     /* wide-character jobs (-DVH_MEMSET_WORD): every memset in the unit under test clears whole
        wchar_t elements; do it element-wise (byte stores at symbolic offsets into wchar_t objects
        made the wide concatenation harnesses run out of memory).  The precondition is asserted. */
-    __CPROVER_assert((n & 3) == 0 && (__CPROVER_POINTER_OFFSET(d) & 3) == 0, "MODEL: memset word-wise precondition");
+    __CPROVER_assert((__CPROVER_POINTER_OFFSET(d) & 3) == 0, "MODEL: memset word-wise precondition (aligned)");
     {
         uint32_t w = (unsigned char)c * 0x01010101u;
         uint32_t *wp = (uint32_t *)d;
-        for (size_t i = 0; i < n / 4; i++)
+        size_t nw = n / 4;
+        for (size_t i = 0; i < nw; i++)
             wp[i] = w;
+        for (size_t j = 0; j < (n & 3); j++) /* a byte count that is not a whole number of elements */
+            dp[nw * 4 + j] = (unsigned char)c;
         return d;
     }
 #endif
